@@ -795,7 +795,11 @@ impl Meta {
         let mut mutated = false;
         for _ in 0..n_edits {
             let before = s.listing_text();
-            let c: String = match rng.usize(12) {
+            let mut non_editing = false;
+            let c: String = match rng.usize(15) {
+                12 => "NEW".to_string(),
+                13 => "SAVE \"F\"".to_string(),
+                14 => rng.pick(&["LOAD \"F\"", "LOAD \"F\"", "LOAD \"NOFILE\""]).to_string(),
                 0 | 1 => rng.pick(&l2).clone(),                                   // insert / replace from another program
                 2 => format!("{}", rng.pick(&nums1)),                             // delete an existing line
                 3 => format!("{}", rng.range(0, 900)),                            // delete a (probably) absent line
@@ -804,7 +808,15 @@ impl Meta {
                 6 => format!("DELETE {}", rng.pick(&nums1)),
                 7 => "RENUM".to_string(),
                 8 => format!("RENUM {},{},{}", rng.range(1, 500), rng.range(0, 50), rng.range(1, 20)),
-                9 => rng.pick(&["A=5:PRINT A", "PRINT 1+1", "X1=3", "GOSUB 65000", "LIST 1-2", "CLEAR"]).to_string(),
+                9 => {
+                    non_editing = true;
+                    rng.pick(&[
+                        "A=5:PRINT A", "PRINT 1+1", "X1=3", "GOSUB 65000", "LIST 1-2", "CLEAR", "FOR I=1 TO 3:NEXT", "DIM QQ(4):QQ(2)=1",
+                        "READ A", "RESTORE", "DEFINT Q", "TRON:TROFF", "RETURN", "CONT", "A$=\"10 PRINT 1\":PRINT A$", "INPUT A", "ON 1 GOTO 65000",
+                        "SWAP A,B", "MID$(A$,1)=\"X\"", "DATA 1,2", "DEF FNQ(X)=X", "STOP", "END", "LIST",
+                    ])
+                    .to_string()
+                }
                 10 => format!("{} REM", rng.range(0, 900)),
                 _ => {
                     let l = rng.pick(&l2).clone();
@@ -819,6 +831,18 @@ impl Meta {
             }
             if s.listing_text() != before {
                 mutated = true;
+                if non_editing {
+                    ctx.violation(
+                        "direct-statement-changed-program",
+                        &format!("edit:direct-altered:{}", c.split(|ch: char| !ch.is_ascii_alphabetic()).next().unwrap_or("")),
+                        &format!("the direct statement {:?} is not an editing command but the listing changed from {:?} to {:?}", c, before, s.listing_text()),
+                        &script.join("\n"),
+                    );
+                    return;
+                }
+            }
+            if non_editing {
+                ctx.count("non_editing_direct_statements_checked");
             }
             ctx.cover("edit_kinds", c.split(' ').next().unwrap_or("").trim_matches(|ch: char| ch.is_ascii_digit()));
         }
